@@ -60,7 +60,11 @@ def png(seed):
             chunk(b'IDAT', zlib.compress(raw)) + chunk(b'IEND', b''))
 
 
-def make_package(decls, paras=(), header_decls=(), picture=None, extra=None, thumbnail=False):
+EXTRA_NAMES = [u'extra/data.bin', u'ObjectReplacements/Object 1', u'Configurations2/accelerator/current.xml', u'Objects/blob',
+               u'Basic/script-lc.xml', u'layout-cache']
+
+
+def make_package(decls, paras=(), header_decls=(), picture=None, extra=None, thumbnail=False, extra_name=0):
     """decls / header_decls: lists of attribute lists; paras: list of (text, field name to reference or None);
     picture: int seed or None; extra: bytes or None.  Returns (bytes of the package, dict name -> bytes)"""
     body = [u'<office:text>']
@@ -106,8 +110,8 @@ def make_package(decls, paras=(), header_decls=(), picture=None, extra=None, thu
         members.append((u'Thumbnails/thumbnail.png', png(99)))
         entries.append((u'Thumbnails/thumbnail.png', u'image/png'))
     if extra is not None:
-        members.append((u'extra/data.bin', extra))
-        entries.append((u'extra/data.bin', u'application/octet-stream'))
+        members.append((EXTRA_NAMES[extra_name % len(EXTRA_NAMES)], extra))
+        entries.append((EXTRA_NAMES[extra_name % len(EXTRA_NAMES)], u'application/octet-stream'))
     man = (DECL + u'<manifest:manifest xmlns:manifest="%s" manifest:version="1.2">' % PREFIX[u'manifest'] +
            u''.join(u'<manifest:file-entry manifest:full-path="%s" manifest:media-type="%s"/>' % e for e in entries) +
            u'</manifest:manifest>')
